@@ -97,6 +97,27 @@ func (ic *incorp) deps1(v ssa.Value) depSet {
 		storedInto(x, func(sv ssa.Value) bool { out.add(ic.deps(sv)); return false })
 		// a builder / hasher local: everything written to it
 		out.add(ic.writtenTo(x))
+		// a local byte array filled through a slice of it: binary.<order>.PutUintNN(a[:], v), copy(a[:], v)
+		if refs := x.Referrers(); refs != nil {
+			for _, r := range *refs {
+				sl, ok := r.(*ssa.Slice)
+				if !ok || sl.Referrers() == nil {
+					continue
+				}
+				for _, u := range *sl.Referrers() {
+					call, ok := u.(*ssa.Call)
+					if !ok {
+						continue
+					}
+					if b, isB := call.Call.Value.(*ssa.Builtin); isB && b.Name() == "copy" && call.Call.Args[0] == sl {
+						out.add(ic.deps(call.Call.Args[1]))
+					}
+					if cal := call.Call.StaticCallee(); cal != nil && strings.Contains(cal.String(), "encoding/binary.") && strings.HasPrefix(cal.Name(), "PutUint") && len(call.Call.Args) == 3 && call.Call.Args[1] == sl {
+						out.add(ic.deps(call.Call.Args[2]))
+					}
+				}
+			}
+		}
 	case *ssa.UnOp:
 		out.add(ic.deps(x.X))
 	case *ssa.Convert:
@@ -250,6 +271,8 @@ func (ic *incorp) callDeps(c *ssa.Call) depSet {
 			return wrapTag("ToBytes", recv)
 		case "Participants":
 			return wrapTag("Participants", recv)
+		case "Len":
+			return wrapTag("Len", recv)
 		case "Sum": // hash.Hash.Sum(b): digest of everything written, appended to b
 			out.add(ic.writtenTo(c.Call.Value))
 			if len(c.Call.Args) > 0 {
@@ -292,7 +315,9 @@ func (ic *incorp) callDeps(c *ssa.Call) depSet {
 				out.add(ic.deps(a))
 			}
 			return out
-		case "len", "cap":
+		case "len":
+			return wrapTag("len", ic.deps(c.Call.Args[0]))
+		case "cap":
 			return out
 		}
 	}
